@@ -3,7 +3,7 @@ from harness import fixtures as F
 from harness.idpfix import IdPFixture
 from harness.spfix import SPFixture, build_docs, b64, NOW, AID, RID, TOKEN
 from harness.common import mk_assertion, mk_response, REQ_ID
-from veriflib.boot import Clock
+from veriflib.boot import Clock, concrete
 from veriflib.runner import Cond
 from saml2_tophat import saml, samlp
 from saml2_tophat import xmlenc as xenc
@@ -55,6 +55,50 @@ def idp_side(sign_response: bool, sign_assertion: bool, encrypt: bool, self_cont
     elif not encrypt and not advice:
         ok = (text is not None) & attrs_clear & nid_clear          # liveness of the harness: plain responses carry the identity
     return ok, (text is not None) | tool_fails | (exc is not None), "text=%s exc=%r enc_for=%d" % (None if text is None else len(text), exc, len(IDP.backend.encrypted_for))
+
+
+def _cert_body(path):
+    txt = open(path).read()
+    return "".join(l for l in txt.splitlines() if "CERTIFICATE" not in l)
+
+
+import os                                                         # noqa: E402
+CERT_MD = _cert_body(os.path.join(F.FX, "test_1.crt"))          # the SP's (first) encryption certificate in metadata
+CERT_REQ = _cert_body(os.path.join(F.FX, "test_2.crt"))         # a certificate supplied with the request
+CERT_OTHER = _cert_body(os.path.join(F.FX, "test.pem"))
+
+
+def idp_two_calls(first: int, second: int, self_contained: bool):
+    """Two encrypted responses for the same SP on one long-lived IdP object, each asking for a
+    particular recipient certificate (0: the one from metadata, 1 / 2: certificates supplied with
+    the request): each response is encrypted for the certificate requested in *that* call."""
+    from veriflib.stubs import FakeTemp
+    first, second, self_contained = concrete(first), concrete(second), concrete(self_contained)
+    Clock(NOW)
+    nid = saml.NameID(format=saml.NAMEID_FORMAT_PERSISTENT, text="SENTINEL-NAMEID")
+    certs = [None, CERT_REQ, CERT_OTHER]
+    want = [CERT_MD, CERT_REQ, CERT_OTHER]
+    ok = True
+    seen = []
+    for which in (first, second):
+        IDP.reset()
+        FakeTemp.REG.clear()
+        try:
+            out = IDP.server.create_authn_response(IDENTITY, "id-req1", F.ACS_POST, F.SP_ID, name_id=nid, authn=AUTHN,
+                                                   sign_response=False, sign_assertion=False, encrypt_assertion=True,
+                                                   encrypt_assertion_self_contained=self_contained, encrypt_cert_assertion=certs[which])
+        except Exception as e:
+            return False, True, "raised %r" % e
+        used = IDP.backend.encrypted_for
+        body = ""
+        if used:
+            c = FakeTemp.REG.get(used[-1])
+            raw = c.content if c is not None else b""
+            raw = raw.decode("ascii") if isinstance(raw, bytes) else raw
+            body = "".join(l for l in raw.splitlines() if "CERTIFICATE" not in l)
+        seen.append(body[:12])
+        ok = ok and (len(used) == 1) and (body == want[which]) and ("SENTINEL-GIVEN" not in ("%s" % out))
+    return ok, True, "recipients=%r" % (seen,)
 
 
 # ----------------------------------------------------------------------------------- SP side
@@ -147,6 +191,12 @@ CONDITIONS = [
                     "mdstore.MetadataStore.certs(use=encryption)"],
          bounds="sign_response x sign_assertion x encrypt_assertion x self-contained namespaces x PEFIM advice x {SP with / without encryption certificate} "
                 "x {encryption tool works / produces nothing}; identity = three concrete sentinels (finite table, exhaustive)"),
+    Cond(name="idp_two_calls", fn="idp_two_calls", params=[("first", "int"), ("second", "int"), ("self_contained", "bool")],
+         pre=["0 <= first <= 2", "0 <= second <= 2"], partitions={"quick": [{"first": a, "self_contained": True} for a in range(3)]},
+         timeout={"quick": 900, "thorough": 1800}, path_timeout=120,
+         functions=["entity.Entity._response/_encrypt_assertion (two calls on one Server)", "server.Server.create_authn_response"],
+         bounds="two consecutive encrypted responses for one SP, recipient certificate per call in {metadata, request-supplied 1, request-supplied 2}; self-contained namespaces "
+                "(without them an unsigned response object is pre-encrypted twice and the tool run fails - an error, which the property allows)"),
     Cond(name="sp_side", fn="sp_side",
          params=[("m", "int"), ("encrypted", "bool"), ("signed", "bool"), ("sig_ok", "bool"), ("keyset", "int"), ("want_ass", "bool"), ("unsol", "bool")],
          pre=["0 <= m < %d" % len(MUT), "0 <= keyset < 6"],
